@@ -89,6 +89,14 @@ Proof.
   rewrite <- (map_rt_path r). rewrite in_map_iff. intros (x & E & H). exists x. tauto.
 Qed.
 
+Lemma NoDup_routes_of r : NoDup (routes_of r).
+Proof.
+  unfold routes_of. apply (NoDup_map_inv (fun x => rt_idx x)). rewrite map_map. simpl.
+  assert (E : forall (l : list str) n, map (fun x : nat * str => fst x) (combine (seq n (length l)) l) = seq n (length l)).
+  { induction l as [|e l IH]; intro n; simpl; [reflexivity|]. f_equal. apply IH. }
+  rewrite E. apply seq_NoDup.
+Qed.
+
 Lemma route_eqb_eq a b : route_eqb a b = true <-> a = b.
 Proof.
   unfold route_eqb. rewrite !andb_true_iff, rule_eqb_eq, Nat.eqb_eq, str_eqb_eq. destruct a, b; simpl. split.
@@ -147,34 +155,55 @@ Proof. intros I U x y q Hx Hy. apply U; apply I; assumption. Qed.
 Lemma btuni_incl L1 L2 : incl L1 L2 -> btuni L2 -> btuni L1.
 Proof. intros I U x y q Hx Hy. apply U; apply I; assumption. Qed.
 
-Lemma add_routes_spec vs : forall d L, ReprV d L -> srcuni L ->
+(** same source and compatible key names for routes with the same pattern *)
+Definition uni (L : list route) : Prop := srcuni L /\ keyuni L.
+
+Lemma keyuni_incl L1 L2 : incl L1 L2 -> keyuni L2 -> keyuni L1.
+Proof. intros I U x y Hx Hy. apply U; apply I; assumption. Qed.
+
+Lemma uni_incl L1 L2 : incl L1 L2 -> uni L2 -> uni L1.
+Proof. intros I [A B]. split; [eapply srcuni_incl | eapply keyuni_incl]; eassumption. Qed.
+
+Lemma add_routes_spec vs : forall d L, ReprV d L -> uni L ->
   match add_routes d vs with
-  | inl d' => (forall v, In v vs -> rpat v <> None) /\ ReprV d' (L ++ vs) /\ srcuni (L ++ vs)
-  | inr _ => (exists v, In v vs /\ rpat v = None) \/ ~ srcuni (L ++ vs)
+  | inl d' => (forall v, In v vs -> rpat v <> None) /\ ReprV d' (L ++ vs) /\ uni (L ++ vs)
+  | inr _ => (exists v, In v vs /\ rpat v = None) \/ ~ uni (L ++ vs)
   end.
 Proof.
   induction vs as [|v vs IH]; intros d L R U; simpl.
   - rewrite app_nil_r. split; [tauto|]. split; assumption.
-  - pose proof (add1_spec d L v R U) as A. destruct (m_add1 d v) as [d1|e].
-    + destruct A as (V & R1 & U1). specialize (IH d1 (L ++ [v]) R1 U1).
+  - destruct U as [U KU]. pose proof (add1_spec d L v R U) as A. destruct (m_add1 d v) as [d1|e].
+    + destruct A as (V & R1 & U1 & K1).
+      assert (KU1 : keyuni (L ++ [v])).
+      { intros x y Hx Hy. apply in_app_iff in Hx. apply in_app_iff in Hy.
+        destruct Hx as [Hx|[Hx|[]]], Hy as [Hy|[Hy|[]]]; subst.
+        - apply KU; assumption.
+        - apply K1. exact Hx.
+        - rewrite kcompat_sym. apply K1. exact Hy.
+        - apply kcompat_refl. }
+      specialize (IH d1 (L ++ [v]) R1 (conj U1 KU1)).
       rewrite <- app_assoc in IH. simpl in IH.
       destruct (Model.add_routes db m_add1 d1 vs).
       * destruct IH as (Vs & R' & U'). split; [|split; assumption].
         intros x [Hx|Hx]; [subst; exact V | apply Vs; exact Hx].
       * destruct IH as [(x & Hx & E)|N]; [left; exists x; split; [right; exact Hx | exact E] | right; exact N].
-    + destruct A as [E|(x & q & Hx & Hqx & Hqv & N)].
+    + destruct A as [E|[(x & q & Hx & Hqx & Hqv & N)|(x & Hx & N)]].
       * left. exists v. split; [left; reflexivity | exact E].
-      * right. intro U'. apply N. apply (U' x v q); try assumption.
+      * right. intros [U' _]. apply N. apply (U' x v q); try assumption.
+        -- apply in_app_iff. left. exact Hx.
+        -- apply in_app_iff. right. left. reflexivity.
+      * right. intros [_ K']. rewrite K' in N; [discriminate | |].
         -- apply in_app_iff. left. exact Hx.
         -- apply in_app_iff. right. left. reflexivity.
 Qed.
 
-Lemma add_routes_flag vs : forall d L d', ReprV d L -> srcuni L -> ReprF d ->
+Lemma add_routes_flag vs : forall d L d', ReprV d L -> uni L -> ReprF d ->
   add_routes d vs = inl d' -> btuni (L ++ vs) -> ReprF d'.
 Proof.
   induction vs as [|v vs IH]; intros d L d' R U F E B; simpl in E.
   - inversion E; subst. exact F.
-  - pose proof (add1_spec d L v R U) as A. destruct (m_add1 d v) as [d1|e] eqn:E1; [|discriminate].
+  - pose proof (add_routes_spec [v] d L R U) as A. simpl in A.
+    destruct (m_add1 d v) as [d1|e] eqn:E1; [|discriminate].
     destruct A as (V & R1 & U1).
     assert (F1 : ReprF d1).
     { apply (add1_flag d L v d1 R F E1). eapply btuni_incl; [|exact B].
@@ -195,11 +224,11 @@ Definition hits (rs : list rule) (x : route) : bool := existsb (fun r => hit_rul
 
 Lemma del_routes_spec r vs : forall d L, ReprV d L -> ReprF d ->
   (forall v, In v vs -> In v L /\ rpat v <> None /\ rt_rule v = r) ->
-  NoDup (map rpat vs) ->
+  NoDup vs -> (fix_F4 fx = false -> NoDup (map rpat vs)) ->
   exists d', del_routes d r vs = inl d' /\
              ReprV d' (filter (fun x => negb (existsb (fun v => hit r v x) vs)) L) /\ ReprF d'.
 Proof.
-  induction vs as [|v vs IH]; intros d L R F H ND; simpl.
+  induction vs as [|v vs IH]; intros d L R F H NDv ND; simpl.
   - exists d. split; [reflexivity|]. split; [|exact F].
     rewrite filter_all_true; [exact R | reflexivity].
   - destruct (H v (or_introl eq_refl)) as (HvL & HvP & HvS).
@@ -207,13 +236,17 @@ Proof.
     assert (Hhit : hit r v v = true).
     { unfold ReprFacts.hit. rewrite EP. rewrite (proj2 (has_pat_rpat p v) EP). rewrite <- HvS. apply del_matcher_self. }
     destruct (del1_spec fx d L r v R F (ex_intro _ v (conj HvL Hhit))) as (d1 & E1 & R1 & F1).
-    rewrite E1. inversion ND as [|? ? Hnotin ND']; subst.
-    destruct (IH d1 _ R1 F1) as (d' & E' & R' & F'); [|exact ND'|].
+    rewrite E1. inversion NDv as [|? ? Hnotv NDv']; subst.
+    destruct (IH d1 _ R1 F1) as (d' & E' & R' & F'); [|exact NDv'| |].
     + intros v' Hv'. destruct (H v' (or_intror Hv')) as (A & B & C). split; [|split; assumption].
       apply filter_In. split; [exact A|].
       unfold ReprFacts.hit. rewrite EP. destruct (has_pat p v') eqn:Hp; [|reflexivity].
-      exfalso. apply Hnotin. apply in_map_iff. exists v'. split; [|exact Hv'].
-      rewrite EP. apply has_pat_rpat. exact Hp.
+      simpl. apply negb_true_iff. unfold del_matcher. destruct (fix_F4 fx) eqn:F4.
+      * apply not_true_is_false. intro Heq. apply route_eqb_eq in Heq. subst v'. contradiction.
+      * exfalso. specialize (ND eq_refl). inversion ND as [|? ? Hnotin ND']; subst.
+        apply Hnotin. apply in_map_iff. exists v'. split; [|exact Hv'].
+        rewrite EP. apply has_pat_rpat. exact Hp.
+    + intro F4. specialize (ND F4). inversion ND; assumption.
     + exists d'. split; [exact E'|]. split; [|exact F'].
       rewrite filter_filter in R'.
       erewrite filter_ext; [exact R'|]. intro x. simpl. rewrite negb_orb. reflexivity.
@@ -221,7 +254,7 @@ Qed.
 
 Lemma del_rules_gen rs : forall d L, ReprV d L -> ReprF d ->
   (forall r v, In r rs -> In v (routes_of r) -> In v L /\ rpat v <> None) ->
-  (forall r, In r rs -> NoDup (map rpat (routes_of r))) ->
+  (fix_F4 fx = false -> forall r, In r rs -> NoDup (map rpat (routes_of r))) ->
   NoDup (map rkey rs) ->
   exists d', del_rules d rs = inl d' /\ ReprV d' (filter (fun x => negb (hits rs x)) L) /\ ReprF d'.
 Proof.
@@ -230,7 +263,8 @@ Proof.
   - destruct (del_routes_spec r (routes_of r) d L R F) as (d1 & E1 & R1 & F1).
     + intros v Hv. destruct (H r v (or_introl eq_refl) Hv) as [A B]. split; [exact A|]. split; [exact B|].
       apply (routes_of_rule _ _ Hv).
-    + apply HP. left. reflexivity.
+    + apply NoDup_routes_of.
+    + intro F4. apply (HP F4). left. reflexivity.
     + rewrite E1. inversion ND as [|? ? Hnotin ND']; subst.
       destruct (IH d1 _ R1 F1) as (d' & E' & R' & F'); [| |exact ND'|].
       * intros r' v' Hr' Hv'. destruct (H r' v' (or_intror Hr') Hv') as [A B]. split; [|exact B].
@@ -240,7 +274,7 @@ Proof.
         apply (del_matcher_sameas fx r v v' (routes_of_rule _ _ Hv)) in Hs.
         rewrite (routes_of_rule _ _ Hv') in Hs. apply sameas_key in Hs.
         apply Hnotin. apply in_map_iff. exists r'. split; [exact Hs | exact Hr'].
-      * intros r' Hr'. apply HP. right. exact Hr'.
+      * intros F4 r' Hr'. apply (HP F4). right. exact Hr'.
       * exists d'. split; [exact E'|]. split; [|exact F'].
         rewrite filter_filter in R'. erewrite filter_ext; [exact R'|].
         intro x. simpl. rewrite negb_orb. reflexivity.
@@ -251,8 +285,8 @@ Qed.
 Record KInv (K : list rule) : Prop := {
   k_keys : NoDup (map rkey K);
   k_valid : forall x, In x (routes K) -> rpat x <> None;
-  k_pats : forall r, In r K -> NoDup (map rpat (routes_of r));
-  k_src : srcuni (routes K);
+  k_pats : fix_F4 fx = false -> forall r, In r K -> NoDup (map rpat (routes_of r));
+  k_uni : uni (routes K);
   k_bt : btuni (routes K) }.
 
 Lemma NoDup_map_incl_filter {A B} (f : A -> B) (P : A -> bool) l : NoDup (map f l) -> NoDup (map f (filter P l)).
@@ -285,7 +319,7 @@ Proof.
   - intros r v Hr Hv. apply filter_In in Hr as [Hr _]. split.
     + apply in_routes. exists r. split; assumption.
     + apply (k_valid _ I). apply in_routes. exists r. split; assumption.
-  - intros r Hr. apply filter_In in Hr as [Hr _]. apply (k_pats _ I r Hr).
+  - intros F4 r Hr. apply filter_In in Hr as [Hr _]. apply (k_pats _ I F4 r Hr).
   - apply NoDup_map_incl_filter. apply (k_keys _ I).
   - exists d'. split; [exact E|]. split; [|exact F'].
     rewrite routes_filter. erewrite filter_ext_in; [exact R'|].
